@@ -329,10 +329,10 @@ Definition ufit (r : req) (t : tree) : bool :=
   | _ => false
   end.
 
-(* kinds whose converter is NOT covered: code blocks; a paragraph break and a comment are not calm either *)
+(* a paragraph break and a comment are not calm *)
 Definition okind (k : kind) : bool :=
   match k with
-  | KParbreak | KLineComment | KBlockComment | KCode | KCodeBlock => false
+  | KParbreak | KLineComment | KBlockComment => false
   | _ => true
   end.
 (* the callee of a call is `table` or `grid` (their argument lists have layouts of their own) *)
@@ -341,9 +341,16 @@ Definition call_is_table (t : tree) : bool :=
   | Some cal => kind_eqb (kind_of cal) KIdent && str_in (text_of cal) TABLE_FUNCS
   | None => false
   end.
+(* a code block with at most one statement (with two it is laid out on several lines whatever the width) *)
+Definition block_foldable (t : tree) : bool :=
+  match find (is_kind KCode) (children t) with
+  | Some b => Nat.leb (length (filter is_expr (children b))) 1
+  | None => true
+  end.
 Fixpoint rs (t : tree) : bool :=
   okind (kind_of t) && negb (a_multiline (attrs_of t)) &&
   negb (kind_eqb (kind_of t) KFuncCall && call_is_table t) &&
+  (negb (kind_eqb (kind_of t) KCodeBlock) || block_foldable t) &&
   match t with
   | Leaf k s _ => negb ((kind_eqb k KSpace || kind_eqb k KRawTrimmed) && has_lb s)
   | Inner _ cs _ => forallb rs cs
@@ -361,14 +368,16 @@ Section Hereditary.
 
   Lemma rs_parts t : rs t = true ->
     okind (kind_of t) = true /\ a_multiline (attrs_of t) = false /\
-    (kind_eqb (kind_of t) KFuncCall && call_is_table t) = false.
+    (kind_eqb (kind_of t) KFuncCall && call_is_table t) = false /\
+    (negb (kind_eqb (kind_of t) KCodeBlock) || block_foldable t) = true.
   Proof.
     intros H. assert (G : (okind (kind_of t) && negb (a_multiline (attrs_of t)) &&
-                           negb (kind_eqb (kind_of t) KFuncCall && call_is_table t)) = true).
+                           negb (kind_eqb (kind_of t) KFuncCall && call_is_table t) &&
+                           (negb (kind_eqb (kind_of t) KCodeBlock) || block_foldable t)) = true).
     { destruct t; cbn [rs] in H; apply andb_prop in H; exact (proj1 H). }
-    apply andb_prop in G. destruct G as [G G3]. apply andb_prop in G. destruct G as [G1 G2].
+    apply andb_prop in G. destruct G as [G G4]. apply andb_prop in G. destruct G as [G G3]. apply andb_prop in G. destruct G as [G1 G2].
     repeat split; [exact G1|destruct (a_multiline _); [discriminate G2|reflexivity]|
-                   destruct (_ && _); [discriminate G3|reflexivity]].
+                   destruct (_ && _); [discriminate G3|reflexivity]|exact G4].
   Qed.
   Lemma rs_okind t : rs t = true -> okind (kind_of t) = true.
   Proof. intros H. apply (rs_parts t H). Qed.
@@ -741,7 +750,7 @@ Section Hereditary.
             -- apply find_some in Ea. destruct Ea as [Hin Hk]. apply in_rev in Hin.
                assert (Hnt : table_info_of self a = NotTable).
                { unfold table_info_of. assert (Hit : is_table self = false); [|rewrite Hit; reflexivity].
-                 destruct (rs_parts t Hrs) as (_ & _ & Hct). unfold is_table, indent_func_name, first_kid. rewrite Ek.
+                 destruct (rs_parts t Hrs) as (_ & _ & Hct & _). unfold is_table, indent_func_name, first_kid. rewrite Ek.
                  unfold call_is_table in Hct. rewrite <- Hshape, find_bt in Hct.
                  destruct (find (fun k => is_expr (bt k)) kids) as [cl|]; cbn [option_map] in Hct; [|reflexivity].
                  unfold bk. destruct (kind_eqb (kind_of (bt cl)) KIdent); [|reflexivity].
@@ -1071,6 +1080,49 @@ Section Hereditary.
         unfold tx. rewrite (rs_space_nolb _ (kid_rs n Hin) Ek). apply post_ret. exact I.
     Qed.
 
+    (* --- code blocks with at most one statement --- *)
+    Lemma find_kind_bt k l : find (is_kind k) (map bt l) = option_map bt (find (fun b => kind_eqb (bk b) k) l).
+    Proof. induction l as [|x l IH]; cbn; [reflexivity|]. unfold is_kind, bk. destruct (kind_eqb (kind_of (bt x)) k); [reflexivity|exact IH]. Qed.
+    Lemma code_block_unb c : kind_of t = KCodeBlock -> c_supp c = true -> post (convert_code_block swidth cfg t kids c) unb.
+    Proof.
+      intros Hkt Hs. unfold convert_code_block.
+      destruct (match find _ kids with Some b => a_disabled _ | None => false end); [apply post_ret; apply verbatim_unb|].
+      set (nodes := flat_map (fun b => if kind_eqb (bk b) KCode then bkids b else [b]) kids).
+      assert (Hnodes : forall n, In n nodes -> ugood n /\ rs (bt n) = true).
+      { intros n Hin. unfold nodes in Hin. apply in_flat_map in Hin. destruct Hin as (b & Hb & Hn).
+        destruct (kind_eqb (bk b) KCode).
+        - pose proof Hgood as G. rewrite Forall_forall in G. pose proof (G b Hb) as Gb.
+          pose proof (good_kids _ _ Gb) as Gk. rewrite Forall_forall in Gk. split; [apply Gk; exact Hn|].
+          pose proof (rs_children _ (kid_rs b Hb)) as R. rewrite <- (good_shape _ _ Gb) in R. rewrite Forall_forall in R.
+          apply R. apply in_map. exact Hn.
+        - destruct Hn as [<-|[]]. pose proof Hgood as G. rewrite Forall_forall in G. split; [apply G; exact Hb|apply kid_rs; exact Hb]. }
+      assert (Hcf : (Nat.leb (match find (fun b => kind_eqb (bk b) KCode) kids with
+                              | Some b => length (filter (fun k => is_expr (bt k)) (bkids b)) | None => 0%nat end) 1
+                     && negb (existsb is_comment_b kids)) = true).
+      { apply andb_true_intro. split.
+        - destruct (rs_parts t Hrs) as (_ & _ & _ & Hbf). rewrite Hkt, kind_eqb_refl in Hbf. cbn [negb orb] in Hbf.
+          unfold block_foldable in Hbf. rewrite <- Hshape, find_kind_bt in Hbf.
+          destruct (find (fun b => kind_eqb (bk b) KCode) kids) as [b|] eqn:Ef; cbn [option_map] in Hbf; [|reflexivity].
+          apply find_some in Ef. pose proof Hgood as G. rewrite Forall_forall in G.
+          rewrite <- (good_shape _ _ (G b (proj1 Ef))) in Hbf.
+          assert (E : forall l, length (filter is_expr (map bt l)) = length (filter (fun k => is_expr (bt k)) l)).
+          { induction l as [|x l IH]; cbn; [reflexivity|]. destruct (is_expr (bt x)); cbn; rewrite IH; reflexivity. }
+          rewrite E in Hbf. exact Hbf.
+        - pose proof kids_nc as K. clear -K. induction K as [|x l Hx Hl IHl]; [reflexivity|]. cbn. rewrite Hx. exact IHl. }
+      rewrite Hcf. unfold get_fold_style. cbn [c_supp with_mode]. rewrite Hs, (rs_calm_multi t Hrs).
+      apply (post_bind _ _ (fun l => clean l /\ l_fold l = Always)).
+      - eapply post_weaken.
+        + apply lst_process_unb.
+          * repeat split; constructor.
+          * apply Forall_forall. intros n Hin. unfold is_comment_b. apply rs_not_comment. apply Hnodes. exact Hin.
+          * intros c' n Hc Hin. destruct (Hnodes n Hin) as [Gn Rn]. unfold opt_conv.
+            destruct (is_expr (bt n)); [|apply post_ret; exact I].
+            eapply post_bind; [apply (good_here _ _ Gn); [exact Rn|reflexivity|cbn [req_ctx]; rewrite Hc; exact Hs]|].
+            intros d Hd. apply post_ret. exact Hd.
+        + intros l [Hc Hf]. split; [exact Hc|]. rewrite Hf. reflexivity.
+      - intros l [Hc Hf]. apply post_ret. unfold lst_doc. apply lst_print_always_unb; assumption.
+    Qed.
+
     (* --- import --- *)
     Lemma In_firstn {A} n (l : list A) x : In x (firstn n l) -> In x l.
     Proof. revert l. induction n as [|n IH]; intros [|y l] H; cbn in *; try contradiction. destruct H; auto. Qed.
@@ -1159,7 +1211,7 @@ Section Hereditary.
               | apply math_unb | apply attach_unb; exact Hs | apply frac_unb; exact Hs | apply delimited_unb; exact Hs
               | apply equation_unb; exact Hs
               | apply post_ret; apply raw_unb | apply ref_unb; exact Hs | apply heading_unb; exact Hs
-              | apply list_item_unb; exact Hs ].
+              | apply list_item_unb; exact Hs | apply code_block_unb; [exact E|exact Hs] ].
     Qed.
     Lemma expr_unb self c : bt self = t -> bkids self = kids -> c_supp c = true -> post (convert_expr swidth cfg self c) unb.
     Proof.
